@@ -131,7 +131,17 @@ func genProto(r *gen.R) protoCase {
 				pc.mutation = "typed field long by one element"
 			}
 		case 6: // dims
-			switch r.Intn(5) {
+			switch r.Intn(6) {
+			case 5:
+				if rank > 0 { // every dim negated: for even ranks the product still matches the payload
+					for i := range tp.Dims {
+						tp.Dims[i] = -tp.Dims[i]
+					}
+					if rank == 1 || r.Bool() {
+						tp.Dims = append(tp.Dims, -1)
+					}
+					pc.mutation = "all dims negated"
+				}
 			case 0:
 				if rank > 0 {
 					tp.Dims[r.Intn(rank)] = int64(-r.Range(1, 4))
